@@ -1,6 +1,8 @@
 package harness
 
 import (
+	"sync/atomic"
+	"time"
 	"context"
 	"database/sql"
 	"database/sql/driver"
@@ -25,11 +27,13 @@ type sqlFaults struct {
 	FailKind map[string]int // "begin"/"insert"/"update"/"commit"/"delete"/"select": fail the k-th next occurrence (1-based), 0 off
 	Fired    map[string]int
 	Log      []string
+	Latency  atomic.Int64 // simulated duration of every statement (ns); 0 = none
 }
 
 var SQLFaults = &sqlFaults{FailAt: map[int]bool{}, FailKind: map[string]int{}, Fired: map[string]int{}}
 
 func (f *sqlFaults) Reset() {
+	f.Latency.Store(0)
 	f.mu.Lock()
 	f.n = 0
 	f.FailAt = map[int]bool{}
@@ -58,6 +62,13 @@ func stmtKind(q string) string {
 var errInjected = errors.New("simsqlite3: injected failure")
 
 func (f *sqlFaults) gate(kind string) error {
+	// a statement takes (simulated) time: an instant read before a statement or a commit is not the instant
+	// read after it
+	// (only where the workload asks for it: a driver that settles between stimuli would take a session
+	// sleeping inside a statement for an idle one)
+	if d := time.Duration(f.Latency.Load()); d > 0 {
+		time.Sleep(d)
+	}
 	f.mu.Lock()
 	defer f.mu.Unlock()
 	f.n++
